@@ -65,6 +65,9 @@ def _endings():
     add('fail_then_cleanup_hard', 'exec', 'HARD_ERROR', ['cleanup'], how='stub_fail')
     add('fail_then_cleanup_exception', 'exec', 'INTERNAL_ERROR', ['cleanup'], how='exit_code_mismatch')
     add('fail_then_cleanup_exception', 'exec', 'INTERNAL_ERROR', ['cleanup'], how='stub_fail')
+    # the instructions that are no assertions (cd, dir, file, copy) but may be written in [assert]: one that cannot do its
+    # job is an error there as everywhere else - "reported as an error, and not as a failed test"
+    add('helper_instruction_fails', 'exec', 'HARD_ERROR', ['setup', 'before-assert', 'assert', 'cleanup'])
     add('stub_hard_returned', 'exec', 'HARD_ERROR', INSTR_PHASES)
     add('stub_hard_raised', 'exec', 'HARD_ERROR', INSTR_PHASES)
     add('atc_cannot_start', 'exec', 'HARD_ERROR', ['act'])
@@ -218,6 +221,11 @@ def build(seed, tier, ending, status, mode, g, atc_exit=None, sweep=False):
         insert('assert', {'k': 'probe', 'id': 'ax', 'form': g.choice(['%', 'run', '$'])})
     elif eid == 'assert_stub_fail':
         stub('assert', 'main', 'pfh_fail')
+    elif eid == 'helper_instruction_fails':
+        v = g.choice(['cd no-such-dir', 'file dup.txt = "b"', 'dir dup.txt', 'dir dup.txt/sub'])
+        if 'dup.txt' in v:
+            case['setup'].insert(0, {'k': 'real', 'e': 1, 'text': 'file dup.txt = "a"'})  # (part of the ending)
+        insert(ph, {'k': 'real', 'e': 1, 'text': v})
     elif eid == 'run_nonzero':
         ident = casegen.PREFIX[ph] + 'x'
         procs[ident] = {'exit': g.choice([1, 2, 255]), 'stderr': STDERR_KINDS[ending.get('stderr')]}
@@ -360,6 +368,14 @@ def build(seed, tier, ending, status, mode, g, atc_exit=None, sweep=False):
             # then not be removed completely - which changes nothing about the verdict
             procs['atc'] = dict(procs['atc'], leaves_a_writing_descendant=True)
             combos.append('atc_leaves_a_writing_descendant')
+    # instructions may carry a description (quoted in the error message of the instruction that ends the case)
+    if (int(seed[:2], 16) % 4 == 0) if sweep else (g.random() < 0.3):
+        for ph_ in ('setup', 'before-assert', 'assert', 'cleanup'):
+            for it in case.get(ph_, []):
+                if it['k'] in ('fault', 'probe') or (it.get('e') and '\n' not in it.get('text', '') and
+                                                    not it.get('text', '').startswith('including')):
+                    it['desc'] = 'a description\nof two lines'
+        combos.append('described_instructions')
     plan = {'format': 1, 'property': PROPERTY, 'engine': 'c02', 'run_seed': seed, 'tier': tier, 'combos': combos,
             'knobs': {'mem_buff_size': g.choice([1, 7, 8192])}, 'entry': 'cli', 'status': status, 'mode': mode,
             'ending': ending, 'case': case, 'procs': procs, 'faults': faults, 'fsfaults': fsfaults, 'files': files,
